@@ -375,3 +375,19 @@ Proof. cbn [from_dict_items]. destruct (from_dict_item ti p x w) as [[r|e0] w2];
 Lemma from_dict_items_step ti p x l w r w2 : from_dict_item ti p x w = (Ok r, w2) ->
   from_dict_items ti p (x :: l) w = from_dict_items ti p l w2.
 Proof. cbn [from_dict_items]. now intros ->. Qed.
+
+(* set_data(new data): the id calculated from the new data is a sibling's *)
+Theorem set_data_by_data_refused w ti n t s q0 i l x d e wcl :
+  WFw w -> get_tree w ti = Some t -> get_node n (forest_of t) = Some s ->
+  Z.eqb (d_obj d) (i_obj (rinfo s)) = false ->
+  calc_id (calc t) d = Some e -> e <> rdid s ->
+  (Nat.ltb 1 (length (idx_get (rdid s) (idx t))) = false \/ wcl = Some false) ->
+  node_loc n (forest_of t) = Some (q0, i, l) -> In x l -> rid x <> n -> rdid x = e ->
+  fst (op_set_data w ti n (Some d) None wcl) = Err EUnique.
+Proof.
+  intros H Gt Gn Ob Ce Ne Hc E Hx Nx Ex.
+  rewrite op_set_data_eq, Gt, Gn. cbn [sd_new_data]. rewrite Ob. cbn [sd_did']. rewrite Ce. cbn [option_map sd_new_did].
+  replace (did_eqb e (rdid s)) with false.
+  - apply (set_data_refused_single w ti n t s q0 i l x (Some d) e wcl); auto.
+  - symmetry. destruct (did_eqb e (rdid s)) eqn:Q; [|reflexivity]. apply did_eqb_eq in Q. contradiction.
+Qed.
